@@ -248,6 +248,7 @@ func runC15(r *Run, rng *Rng, thorough bool) {
 		reps = 3000
 	}
 	held := &heldOutputs{}
+	sameNameTypes(r)
 	// (1) shapes x values x optional subsets
 	for si, mk := range shapeInstances() {
 		var probe []fieldRef
